@@ -231,6 +231,9 @@ def families(check_fn, configs=None, thorough=False):
                "markup-significant strings cut into 2-3 adjacent spans at every position (WebVTT)"))
   fams.append(("F-blank", len(wc.STYLE_MENU) * 2, lambda i: wc.blank_doc(i // 2, i % 2), cfgs,
                "a paragraph whose only text is preserved white space in a styled span: no cue, whatever tags the style would need"))
+  wm = wc.fam_wsmix_items()
+  fams.append(("F-ws-mixed", wm.n, lambda i: wc.wsmix_doc(*wm.decode(i)), [c for c in cfgs if c in (("srt", True), ("vtt", False, False, True))],
+               "three adjacent spans with leading / trailing / only spaces x xml:space default or preserve on each span and on the paragraph"))
   tm = wc.fam_time_items()
   fams.append(("F-time", len(tm), lambda i: wc.time_doc(*tm[i]), [c for c in cfgs if c in (("srt", True), ("vtt", False, False, True), ("vtt", True, False, True))],
                "millisecond / sub-millisecond / unbounded intervals"))
